@@ -89,6 +89,11 @@ def reap_abandoned_pools():
         c.join(2)
 
 
+PROTOCOL_EXCEPTIONS = ["StopIteration", "StopAsyncIteration", "AttributeError", "KeyError", "IndexError", "LookupError", "TypeError",
+                       "TimeoutError", "multiprocessing.TimeoutError", "EOFError", "BrokenPipeError", "OSError", "AssertionError",
+                       "NotImplementedError", "MemoryError", "RecursionError", "BufferError"]
+
+
 def run(ctx):
     common.setup_repo_import()
     import fast_ticc
@@ -148,6 +153,12 @@ def run(ctx):
         for idx in range(K):
             plans.append({"kind": "task", "mp": False, "fail": [idx], "exc": "LinAlgError", "eps": [1e-6, 0.05, None][idx % 3]})
         plans.append({"kind": "task", "mp": True, "fail": [1], "exc": "LinAlgError", "eps": 1e-3})
+        # error classes that Python's own control constructs give a meaning to (iteration protocol, attribute and key
+        # look-ups with defaults, sequence iteration, pool time-outs and pipe errors, resource exhaustion): a solver task
+        # failing with one of them, in the first round and in a later one, must surface like any other failure
+        for j, nm in enumerate(PROTOCOL_EXCEPTIONS):
+            plans.append({"kind": "task", "mp": False, "fail": [K + (j % K) if j % 2 == 0 else (j % K)], "exc": nm})
+        plans.append({"kind": "task", "mp": True, "fail": [K + 1], "exc": "StopIteration"})
         for ph in ("repop", "stats", "opt-phase", "relabel"):
             for rnd in ((0, 1) if ph != "repop" else (1, 2)):
                 plans.append({"kind": "phase", "mp": False, "phase": ph, "round": rnd})
@@ -176,6 +187,10 @@ def run(ctx):
             exc_type = exc_types[(min(fail) + (3 if mpflag else 0)) % len(exc_types)]
             if plan.get("exc") == "LinAlgError":
                 exc_type = np.linalg.LinAlgError
+            elif plan.get("exc"):
+                import builtins
+                exc_type = multiprocessing.TimeoutError if plan["exc"] == "multiprocessing.TimeoutError" else getattr(builtins, plan["exc"])
+                ctx.count("task_fault_class:" + plan["exc"])
 
             def failing(*a, _exc=exc_type, **k):
                 with counter.get_lock():
